@@ -514,8 +514,60 @@ def rule_r4(prog, res):
     res.floor('R4', 'primitive element readers', n, 4)
 
 
+def rule_option_binding(prog, res, rule='R5'):
+    """Every parser option is the constructor argument of the same name (or
+    a literal): nothing derived, nothing taken from other state."""
+    res.rule(rule, 'every XML parser option is bound to the constructor '
+             'argument of the same name')
+    init = prog.method('spyne.protocol.xml:XmlDocument', '__init__')
+    params = set(init.params())
+    val = None
+    for n in walk_no_defs(init.node):
+        if isinstance(n, ast.Assign) and any(
+                isinstance(t, ast.Attribute) and t.attr == 'parser_kwargs'
+                for t in n.targets):
+            val = n.value
+            if isinstance(val, ast.Name):
+                loc = local_assignments(init.node, val.id)
+                if len(loc) == 1:
+                    val = loc[0]
+    pairs = {}
+    if isinstance(val, ast.Call) and call_name(val) == 'dict':
+        for kw in val.keywords:
+            if kw.arg is not None:
+                pairs[kw.arg] = kw.value
+    elif isinstance(val, ast.Dict):
+        for k, v in zip(val.keys, val.values):
+            if isinstance(k, ast.Constant):
+                pairs[k.value] = v
+    res.floor(rule, 'parser options passed to lxml', len(pairs), 8)
+    rebound = set()
+    for n in walk_no_defs(init.node):
+        if isinstance(n, ast.Assign):
+            for t in n.targets:
+                if isinstance(t, ast.Name):
+                    rebound.add(t.id)
+    for name, v in sorted(pairs.items()):
+        ok = isinstance(v, ast.Constant) or (
+            isinstance(v, ast.Name) and v.id == name and name in params and
+            name not in rebound)
+        where = '%s:%d' % (init.module.relpath, v.lineno)
+        res.ob(rule, where, 'parser_kwargs[%s] = %s' % (name, unparse(v)),
+               'ok' if ok else 'VIOLATED')
+        if not ok:
+            res.finding(rule, 'XmlDocument.__init__|option-binding|%s|%s' % (
+                name, unparse(v)[:30]), where,
+                'parser option %s is bound to %s instead of the constructor '
+                'argument %s: the option the deployer passed (or left at its '
+                'default, e.g. encoding=None = "honour the document\'s own '
+                'declaration") is replaced by other state' % (
+                    name, unparse(v)[:40], name))
+
+
+
 def _tail(prog, res, tier):
     res.run_rule(rule_r4, prog, res)
+    res.run_rule(rule_option_binding, prog, res)
     # subclasses forward *args/**kwargs unchanged
     xmldoc = prog.cls('spyne.protocol.xml:XmlDocument')
     n_sub = 0
@@ -577,6 +629,10 @@ _S = 'spyne/protocol/soap/soap11.py'
 _M = 'spyne/protocol/soap/mime.py'
 
 MUTANTS = [
+    Mutant('parser-encoding-from-self', 'R5', 'fire', _X,
+           in_func('XmlDocument.__init__', "            encoding=encoding,\n",
+                   "            encoding=self.encoding,\n"),
+           'option-binding'),
     Mutant('options-filtered-truthy', 'R2', 'fire', _X,
            in_func('XmlDocument.__init__', "            encoding=encoding,\n"
                    "        )",
